@@ -240,7 +240,7 @@ def check_decl(dc, st, tier, only=None):
         else:
             check_nonbytes(dc, st)
         return
-    budget = ea.budget_for(dc, tier)
+    budget = ea.budget_for(dc, tier, thorough=2000)
     seen = set()
     npv = 0
     for raw, r in ea.inputs_for(dc, budget, ext=True if dc.spec.get('tag') else None):
